@@ -137,6 +137,10 @@ def run(tier, seed, replay=None):
             x = x * scale
             eps = rng.choice([1e-12, 1e-10, 1e-8, 1e-6, 1e-4, 1e-2])
             if i < 8: eps = eps_forced
+            if fdt in (torch.float32, torch.complex64): eps = max(eps, 1e-6)
+            # single precision: tolerances the dtype can certify.  Below them the sweeps never converge and run on noise until the budget is used; on such
+            # data torch.linalg.qr (complex64, rank-deficient columns ~1e-20) was seen to return NaN for a finite matrix - a defect of the numerical
+            # library under BOTH backends (numpy's QR is fine on the same matrix), which cannot be told from a backend fault through the extension (DESIGN 11)
             guess = solverkit.rand_tt_float(rng, M, solverkit.ranks(rng, d, 2), wide, cplx=cplx_) if rng.random() < 0.4 else None
             nswp = 40
             single = fdt in (torch.float32, torch.complex64)
